@@ -1,6 +1,6 @@
 #!/bin/sh
 # usage: demos/C06/run.sh <mutant.diff>...
-# The C06 mutants are written against /repo + the pending proposed_fixes/C06-[1-6]-*.diff (on the unfixed tree the check
+# The C06 mutants are written against /repo + the pending proposed_fixes/C06-[1-5]-*.diff (on the unfixed tree the check
 # already fails).  This script builds that base (fixes that are already committed are skipped), applies one mutant,
 # runs the repository's own tests (must pass) and then `./check C06 quick` against the copy (must report violations).
 # Once the fixes are committed, `tools/mutant.sh demos/C06/<name>.diff C06` does the same.
@@ -8,7 +8,7 @@ for m in "$@"; do
   m=$(readlink -f "$m")
   d=$(mktemp -d /tmp/c06mut_XXXXXX)
   rsync -a --exclude=.git --exclude='*.o' --exclude=/chibicc --exclude=/stage2 --exclude='*.exe' --exclude='/tmp*' /repo/ "$d"/
-  for f in /verif/proposed_fixes/C06-[1-6]-*.diff; do
+  for f in /verif/proposed_fixes/C06-[1-5]-*.diff; do
     (cd "$d" && git apply --check "$f" 2>/dev/null && git apply "$f") || echo "note: $(basename $f) not applied (already in the tree?)"
   done
   if [ -n "$m" ] && [ "$(basename $m)" != none ]; then (cd "$d" && patch -p1 -s < "$m") || { echo "MUTANT: patch does not apply"; rm -rf "$d"; continue; }; fi
